@@ -25,6 +25,7 @@ BeginReq ==
        /\ (kind # "qok") => d2 = 0
        /\ (f # "none") => (nfault < MaxFaults /\ d1 \in {0, 1} /\ d2 = 0)
        /\ (f = "rNraise") => kind = "qok"
+       /\ (f = "r2raise") => d1 = 1              \* the exception hits the first RETRY read (after one timeout)
        /\ hist' = Append(hist, [kind |-> kind, d1 |-> d1, d2 |-> d2, fault |-> f])
        /\ nfault' = IF f = "none" THEN nfault ELSE nfault + 1
        /\ pc' = IF kind \in {"noport", "notext"} THEN "ret" ELSE "write"
@@ -47,7 +48,9 @@ Read1 ==
 \* retry loop of the first line: `while len(response) == 0 and n < R`
 Loop1 ==
   /\ pc = "loop1"
-  /\ IF resp.tok = Empty /\ retries < R
+  /\ IF resp.tok = Empty /\ retries < R /\ Plan.fault = "r2raise" /\ retries = 0
+     THEN pc' = "caught" /\ UNCHANGED <<rxq, retries, resp>>      \* readline() raises inside the retry loop
+     ELSE IF resp.tok = Empty /\ retries < R
      THEN LET r == ReadQ(rxq) IN
           /\ rxq' = r[2] /\ retries' = retries + 1 /\ pc' = "loop1"
           /\ resp' = [typ |-> IF DecodeOnRetry \/ Plan.kind = "cmd" THEN "str" ELSE "bytes", tok |-> r[1]]
